@@ -101,6 +101,17 @@ class WalletProp(BaseProp):
                 except Exception:
                     t = None
             return {"ob": t, "or": c_oracles(rec), "err": t is None}
+        if k == "WasX":
+            from btc_hd_wallet.paper_wallet import PaperWallet
+            rec = Recorder()
+            with rec.installed():
+                full = build_wallet(case["w"])
+                xprv = full.master.extended_private_key(version=case["v"])
+                try:
+                    t = json.loads(PaperWallet.from_extended_key(xprv).wasabi_json())
+                except Exception:
+                    t = None
+            return {"xprv": xprv, "ob": t, "or": c_oracles(rec), "err": t is None}
         if k == "Watch":
             from btc_hd_wallet.base_wallet import BaseWallet
             rec = Recorder()
@@ -151,6 +162,8 @@ class WalletProp(BaseProp):
             return "(Par %s %s %s)" % (obs["sha"], tree(obs["data"]), rt(obs["ob"]))
         if k == "Was":
             return "(Was %s %s %s)" % (obs["or"], c_wspec(case["w"]), rt(obs["ob"]))
+        if k == "WasX":
+            return "(WasX %s %s %s)" % (obs["or"], zs(obs["xprv"]), rt(obs["ob"]))
         if k == "Watch":
             return "(Watch %s %s %s %s %s %s %s)" % (obs["or"], c_wspec(case["w"]), c_path(case["export"]), zs(obs["xpub"]), c_path(case["sub"]),
                                                      rt(obs["ob"]), rt(obs["full"]))
